@@ -13,6 +13,10 @@ pub enum Site {
     Eval,
     /// `FunctionDef::call`, after the arity and call-depth checks.
     Call,
+    /// Every access to a heap cell (`Heap::get`, `Heap::get_mut`, `Heap::insert`): a yield
+    /// point only, so that a controlled scheduler can interleave threads inside built-ins,
+    /// comparisons and stringification. The callback's result is ignored at these sites.
+    Heap,
 }
 
 pub type Callback = Box<dyn FnMut(Site) -> Result<(), RuntimeError>>;
@@ -29,6 +33,12 @@ pub fn install(cb: Callback) {
 /// Remove the current thread's callback.
 pub fn clear() {
     CALLBACK.with(|c| *c.borrow_mut() = None);
+}
+
+/// A yield-only point: runs the callback (if any) and ignores its verdict.
+#[inline]
+pub fn yield_point(site: Site) {
+    let _ = point(site);
 }
 
 /// A fault / yield point. Returns the callback's verdict, or `Ok(())` if none is installed.
